@@ -5,7 +5,7 @@ import Bng.Model.Index
   allocator.MemoryAllocationStore on the generic "primary map + secondary indexes" model and runs the index monitor
   (C20) on the implementation's observations.
 
-    new submgr | new statestore lease|session|sub | new memstore     => ok
+    new submgr | new statestore lease|session|sub|nat | new memstore     => ok
     create <pN|-> <mK|-> <aK|->     => ok pN | conflict | error      (`-` id: the code generates the id)
     update pN <mK|-> <aK|->         => ok | notfound                 (state.Store only)
     assign pN aK                    => ok | notfound                 (subscriber.Manager only)
@@ -14,6 +14,11 @@ import Bng.Model.Index
     bymac mK                        => pN <mK|-> <aK|-> | none | dangling
     byip aK                         => pN <mK|-> <aK|-> | none | dangling
     list                            => pN,pN,… | -
+    load pN:aK,pN:aK,… | -          => ok | error                    (memstore: UnmarshalJSON of these records, in this order)
+    stress <seed> <goroutines> <ops> => live <pN=mK:aK,…|-> look <mK=…,aK=…|-> anomalies <k> dupids <j>
+                                        (last op of a dedicated sequence; the outcome depends on the schedule, so the
+                                        model does not predict it: the model observation IS the implementation's, and
+                                        the monitor audits the final table)
 
   An operation the selected Go type does not offer, or an unparseable one, is `badop`.
 -/
@@ -22,6 +27,8 @@ open Bng Bng.Drv Bng.Index
 
 structure St where
   cfg : Option Cfg := none
+  /-- a stress op was replayed: the model no longer knows the state, every further op is `badop` -/
+  dead : Bool := false
   model : Index.State := {}
   mon : Index.Mon := {}
 
@@ -46,6 +53,22 @@ def showObs : Obs → String
 def parseOptKey (tag : Char) (s : String) : Option (Option Nat) :=
   if s == "-" then some none else (parseTagged tag s).map some
 
+/-- `p1:a1,p2:a1` (or `p1:m1:a1`, `-` for an absent key); `-` is the empty list -/
+def parseLoad (s : String) : Option (List (Nat × Rec)) :=
+  if s == "-" then some [] else
+  (s.splitOn ",").mapM fun item =>
+    match item.splitOn ":" with
+    | [id, a] => do
+        let id ← parseTagged 'p' id
+        let a ← parseOptKey 'a' a
+        pure (id, { k0 := none, k1 := a })
+    | [id, m, a] => do
+        let id ← parseTagged 'p' id
+        let m ← parseOptKey 'm' m
+        let a ← parseOptKey 'a' a
+        pure (id, { k0 := m, k1 := a })
+    | _ => none
+
 def parseOp (toks : List String) : Option Op :=
   match toks with
   | ["create", id, k0, k1] => do
@@ -67,6 +90,7 @@ def parseOp (toks : List String) : Option Op :=
   | ["bymac", m] => (parseTagged 'm' m).map (.byKey false)
   | ["byip", a] => (parseTagged 'a' a).map (.byKey true)
   | ["list"] => some .list
+  | ["load", l] => (parseLoad l).map .load
   | _ => none
 
 def parseRec (toks : List String) : Option (Nat × Rec) :=
@@ -108,7 +132,49 @@ def event (op : Op) (impl : String) : Ev :=
   | .list, [l] => match parseIds l with
       | some ids => .listed ids
       | none => .listed [1000000]
+  | .load l, ["ok"] => .loaded l
   | _, _ => .nop
+
+/-- `p1=m1:a1,…` -/
+def parseAuditLive (s : String) : Option (List (Nat × Rec)) :=
+  if s == "-" then some [] else
+  (s.splitOn ",").mapM fun item =>
+    match item.splitOn "=" with
+    | [id, ks] => match ks.splitOn ":" with
+      | [m, a] => do
+          let id ← parseTagged 'p' id
+          let m ← parseOptKey 'm' m
+          let a ← parseOptKey 'a' a
+          pure (id, { k0 := m, k1 := a })
+      | _ => none
+    | _ => none
+
+/-- `m1=p1:m1:a1,m2=none,a1=dangling,…` -/
+def parseAuditLooks (s : String) : Option (List (Bool × Nat × Look)) :=
+  if s == "-" then some [] else
+  (s.splitOn ",").mapM fun item =>
+    match item.splitOn "=" with
+    | [k, r] =>
+      let key : Option (Bool × Nat) := match parseTagged 'm' k, parseTagged 'a' k with
+        | some v, _ => some (false, v)
+        | none, some v => some (true, v)
+        | none, none => none
+      let res : Option Look :=
+        if r == "none" then some .none else if r == "dangling" then some .dangling else
+        (parseRec (r.splitOn ":")).map fun (id, rr) => .found id rr
+      match key, res with
+      | some (s, v), some l => some (s, v, l)
+      | _, _ => none
+    | _ => none
+
+/-- the audit printed by `stress`; an unreadable audit counts as a failed workload -/
+def auditEvent (impl : String) : Ev :=
+  match splitTokens impl with
+  | ["live", l, "look", k, "anomalies", a, "dupids", d] =>
+    (match parseAuditLive l, parseAuditLooks k, a.toNat?, d.toNat? with
+     | some l, some k, some a, some d => .audit l k a d
+     | _, _, _, _ => .audit [] [] 1000000 0)
+  | _ => .audit [] [] 1000000 0
 
 def parseNew (toks : List String) : Option Cfg :=
   match toks with
@@ -116,6 +182,7 @@ def parseNew (toks : List String) : Option Cfg :=
   | ["new", "statestore", "lease"] => some stLease
   | ["new", "statestore", "session"] => some stLease
   | ["new", "statestore", "sub"] => some stSub
+  | ["new", "statestore", "nat"] => some stNat
   | ["new", "memstore"] => some memstore
   | _ => none
 
@@ -129,6 +196,16 @@ def step (st : St) (toks : List String) (impl : String) : St × LineResult :=
     match st.cfg with
     | none => (st, { modelObs := "badop" })
     | some c =>
+      if st.dead then (st, { modelObs := "badop" }) else
+      match toks with
+      | ["stress", seed, g, n] =>
+        if seed.toNat?.isNone || g.toNat?.isNone || n.toNat?.isNone then (st, { modelObs := "badop" }) else
+        -- schedule-dependent outcome: the model observation is the implementation's, verbatim; the workload is clean by
+        -- construction, so NO finding may excuse a verdict on its final table (clause "none" throughout)
+        let (_, vs) := Index.check st.mon (auditEvent impl)
+        ({ st with dead := true },
+         { modelObs := impl, viols := vs.map fun v => (v.name, "none", v.detail) })
+      | _ =>
       match parseOp toks with
       | none => (st, { modelObs := "badop" })
       | some op =>
